@@ -91,6 +91,19 @@ def _rand_token(rng):
     return "".join(out)
 
 
+LONG_TOKEN_LENGTHS = [64, 127, 128, 255, 256, 257, 300, 1000, 1024, 4095, 4096, 4097, 5000]
+
+
+def _long_token(rng, unit):
+    """the unit repeated to one of LONG_TOKEN_LENGTHS characters (expressibility is kept: the unit's own is decided later)"""
+    n = rng.choice(LONG_TOKEN_LENGTHS)
+    t = (unit * (n // len(unit) + 1))[:n]
+    # do not end inside a backslash run of the unit
+    while t.endswith("\\") and not expressible(t):
+        t = t[:-1]
+    return t
+
+
 def _long_input(rng):
     """50..5000 characters from repeated units: long runs of unmatched alternating quotes nest the scanner deeply"""
     n = rng.choice([50, 200, 800, 1200, 2500, 5000]) if rng.random() < 0.5 else rng.randint(50, 5000)
@@ -124,12 +137,17 @@ def gen(rng, tier, info):
                 cases.append({"k": 0, "s": "".join(t)})
     n_ex = len(cases)
     nr = {"quick": 20000, "thorough": 200000, "search": 10000}[tier]
-    n_expr = n_words = 0
+    n_expr = n_words = n_long_tok = 0
     for _ in range(nr):
         nt = rng.randint(0, 4)
         words = rng.random() < 0.33
         n_words += words
         toks = [rng.choice(WORDS) if (words and rng.random() < 0.85) else _rand_token(rng) for _ in range(nt)]
+        if nt and rng.random() < 0.02:
+            # one LONG token (a path, a message): the statement's tokens have no maximal length; the round trip is demanded
+            j = rng.randrange(nt)
+            toks[j] = _long_token(rng, toks[j] or "ab")
+            n_long_tok += 1
         qs = []
         for t in toks:
             qs.append(0 if (bare_ok(t) and rng.random() < (0.6 if words else 0.3)) else rng.choice([1, 2]))
@@ -145,6 +163,10 @@ def gen(rng, tier, info):
     for _ in range(nu):
         nt = rng.randint(2, 5)
         toks = ["".join(rng.choice(plain) for _ in range(rng.randint(1, 4))) for _ in range(nt)]
+        if rng.random() < 0.1:
+            j = rng.randrange(nt)
+            toks[j] = _long_token(rng, toks[j])
+            n_long_tok += 1
         seps = ["".join(chr(rng.choice(SPACES)) for _ in range(rng.randint(1, 3))) for _ in range(nt - 1)]
         cases.append({"k": 0, "s": build(toks, [0] * nt, seps, "", chr(rng.choice(SPACES)) if rng.random() < 0.5 else ""), "toks": toks})
     # long inputs
@@ -159,6 +181,11 @@ def gen(rng, tier, info):
     for k in range(0, 5):
         for t in itertools.product(pool[:6], repeat=k):
             cases.append({"k": 1, "toks": list(t), "probes": pool})
+    # tokens that only look like the end-of-options marker
+    near = ["--", " --", "-- ", "--\t", "---", "-", "\u2014", "--\n", "-v"]
+    for k in range(1, 4):
+        for t in itertools.product(near, repeat=k):
+            cases.append({"k": 1, "toks": list(t), "probes": near})
     for k in range(0, 6):
         for t in itertools.product(["a", "\\", "'", '"'], repeat=k):
             cases.append({"k": 3, "t": "".join(t)})
@@ -167,8 +194,9 @@ def gen(rng, tier, info):
         cases.append({"k": 2, "lo": lo, "hi": min(hi, lo + 0x4000)})
     info["exhaustive"] = True
     info["distribution"] = {"exhaustive_strings": n_ex, "max_len": depth, "random_token_lists": nr, "of_which_expressible": n_expr,
+                            "token_lists_with_a_long_token (64..5000 characters)": n_long_tok,
                             "of_which_from_the_word_pool": n_words, "unquoted_word_lists": nu, "long_inputs": nl + 8,
-                            "argv_lists": sum(6 ** k for k in range(5)), "isspace_range": hi}
+                            "argv_lists": sum(6 ** k for k in range(5)) + sum(9 ** k for k in range(1, 4)), "isspace_range": hi}
     return cases
 
 
@@ -263,6 +291,16 @@ def run_impl(c):
         except Exception as e:
             return err(e)
         out = [0, [S(t) for t in a.tokens], [S(t) for t in a.option_tokens]]
+        # tokenising is a function of the string: ONE TokenParser object that has already split other strings (one that
+        # ends inside a quoted string, and this very string) gives what the new parser inside StringArgs gave
+        from clikit.args.token_parser import TokenParser
+        tp = TokenParser()
+        try:
+            tp.parse("a 'b \\")
+            tp.parse(c["s"])
+            again = 1 if tp.parse(c["s"]) == list(a.tokens) else 0
+        except Exception:
+            again = 0
         # the argv form, built WITHOUT the tokeniser wherever the case says what the string spells: the generated token list
         # (expressible stream), str.split() for text free of quotes and backslashes; else the tokens just read (whose
         # agreement with the model's tokens is the first part of this observation)
@@ -275,7 +313,7 @@ def run_impl(c):
             argv, indep = list(a.tokens), 0
         b = ArgvArgs(["script"] + argv)
         same = _same(a, b)
-        return out + [same, indep]
+        return out + [same, indep, again]
     if c["k"] == 1:
         argv = ["script"] + list(c["toks"])
         snapshot = list(argv)
@@ -309,6 +347,8 @@ def oracle(c, o):
             return "unquoted-split"
         if not o[3]:
             return "string-and-argv-forms-differ"
+        if len(o) > 5 and not o[5]:
+            return "a-token-parser-used-before-splits-differently"
         exp = list(itertools.takewhile(lambda t: t != "--", toks))
         if [unS(t) for t in o[2]] != exp:
             return "option-tokens"
